@@ -327,3 +327,19 @@ PROPS["C09"] = {
     "floors": [("results", "rejected-wrong-size", 300), ("results", "delivered/untyped-nil/func", 20), ("results", "delivered/standin/struct", 50),
                ("results", "delivered/standin-ptr/ptr", 5), ("results", "delivered/untyped-nil/interface", 50)],
 }
+
+PROPS["C12"] = {
+    "prepare": [prep_corpus],
+    "units": [
+        {"name": "histories", "pkg": "./zverif/c12", "run": "^TestVerifC12$", "timeout": {"quick": 300, "thorough": 2400},
+         "shards": {"quick": 1, "thorough": 16}},
+    ],
+    "rule": "rapid histories of 2..20 instructions (Apply, Return, When..Return, Cancel, Reset, calls, a distractor builder) over 3 functions, 2 methods, "
+            "2 methods of one interface variable and one variable, every instruction given through a freshly looked-up handle (Func / Struct.Method / "
+            "Interface.Method.As / Var). Oracle: last-writer-wins reference model (Apply -> callback; Return/When on a live stub configuration extends it, "
+            "after an Apply or a Cancel/Reset starts a fresh one); after every instruction every target is called and must behave by its most recent "
+            "instruction. Plus a deterministic check that Pkg affects exactly the next lookup. Non-trivial: a history in which some target alternates "
+            ">=2 times between callback and stub; distinct by the (op,target) sequence.",
+    "assumptions": ["one handle kind per target (Func and ExportFunc on the same function within one builder are not mixed)"],
+    "floors": [("histories", "target-with->=2-callback/stub-alternations", 200), ("histories", "pkg-override-next-lookup-only", 1)],
+}
